@@ -32,6 +32,11 @@ let get () = match !state with Some s -> s | None -> failwith "no state"
 
 let crossed (fh : z) (th : z) : bool = (int_of_z fh / !ki) < (int_of_z th / !ki)
 
+(* `begin <ki> alt`: dumps are restricted to the ALT part (tip, applied count, block levels/flags). Used for histories
+   in which a VBK reorganisation takes VTBs off the VBK best chain: SP fork resolution is outside the model, so the
+   BTC reference counts / VBK endorsements of the two sides legitimately differ there. *)
+let altonly = ref false
+
 let dump (s : (pstate, ccmd) st) : string =
   let b = Buffer.create 256 in
   Buffer.add_string b (Printf.sprintf "tip=%s n=%d |" (name s.tip) (int_of_n s.napp));
@@ -40,6 +45,7 @@ let dump (s : (pstate, ccmd) st) : string =
     let f = (if x.b_fb then "b" else "") ^ (if x.b_fp then "p" else "") ^ (if x.b_fc then "c" else "") in
     Buffer.add_string b (Printf.sprintf " %s:%d:%s:%s" (name x.b_id) (int_of_n x.b_lvl) (if f = "" then "-" else f)
                            (if x.b_act then "1" else "0"))) bl;
+  if !altonly then Buffer.contents b else
   let cnt = Hashtbl.create 64 in
   let ends = ref [] in
   List.iter (fun it -> match it with
@@ -55,8 +61,9 @@ let dump (s : (pstate, ccmd) st) : string =
   Buffer.contents b
 
 let handle op args = match op, args with
-  | "begin", [k] ->
+  | "begin", (k :: opt) ->
     ki := int_of_string k;
+    altonly := (opt = ["alt"]);
     state := Some (c_init (enc "a0") Z0 [IRef (enc "v0"); IRef (enc "b0")]); "ok"
   | "conn", [a; p; d; gs] ->
     (match c_connect (get ()) (enc a) (enc p) (d = "1") (parse_groups gs) with
